@@ -30,6 +30,11 @@ CLAIMED.update({
    note="Trusted: as C05; the base64 crate is modelled (RFC 4648 strict) and swept. Secrecy of Debug/Display output is tested by the harness, not proved. URL credential percent-decoding is not modelled. No axioms.",
    technique="Coq proof (induction over the challenge loop; base64 arithmetic) + differential correspondence",
    design="8/C14"),
+ "C16": dict(
+   text="Coq theorems about an executable model of Address::from_str/new and the email_address validators over Unicode scalar values, with char::is_alphanumeric, idna::domain_to_ascii and IpAddr::from_str as universally quantified oracles: C16_shape (accepted = user '@' domain split at the last '@', both valid, rejoin exact), C16_display_parse, C16_new_iff_parse_partial (new(u,d) agrees with parsing u@d when d has no '@'; C16_new_iff_parse_refuted gives the witness for F15), C16_safe and C16_no_crlf (under four stated oracle hypotheses: no control character/CR/LF/NUL anywhere, no space or '@' in the domain, no space/angle bracket/quote in an unquoted local part or a non-literal domain; C16_literal_angle_refuted is finding F25). Tied to /repo by an exhaustive 12-symbol sweep of from_str and of new over all splits, boundary/IDNA/IP cases, with the model fed the real oracles' answers, the oracle hypotheses checked on every answer used (is_alphanumeric over all scalars), and an independent python safety judge on every accepted string.",
+   note="Trusted: kernel, extraction, drivers, transcription of email_address 0.2 parse_local_part/parse_domain. Modelled, not verified: idna, IpAddr parsing, Unicode tables (oracles with validated hypotheses H_alnum, H_idna_ascii, H_idna_c1, H_ip). serde shapes and Envelope non-emptiness are tested (harness), not proved. No axioms: hypotheses are explicit premises of C16_safe.",
+   technique="Coq proof with explicit oracle hypotheses + exhaustive differential correspondence",
+   design="8/C16"),
 })
 NOT_YET = {}
 props = [json.loads(l) for l in open(os.path.join(V, "properties.jsonl"))]
